@@ -143,6 +143,9 @@ func vSLIdle(sc *serverConn, strms Streams, openStreams, ring int) {
 			bb += len(s.ctx.Request.Body())
 		}
 	}
+	// what is kept of a header block that is being discarded (refused stream,
+	// malformed request) counts as buffered header bytes too
+	hb += len(sc.discardBuf)
 	v.Strms.Store(int64(len(strms)))
 	v.OpenStreams.Store(int64(openStreams))
 	v.ClosedRing.Store(int64(ring))
